@@ -17,6 +17,7 @@ import (
 	"testing/synctest"
 	"time"
 
+	"github.com/pion/ice/v4/internal/zzmc"
 	"github.com/pion/stun/v3"
 	"github.com/pion/transport/v4"
 )
@@ -155,6 +156,18 @@ func (c *vsock) isClosed() bool {
 	}
 }
 
+// settle waits until every goroutine of the bubble is durably blocked. Under the CS scheduler (which owns
+// synctest.Wait) a harness thread gets the same effect by sleeping on the virtual clock: it only advances
+// once nothing else can move (the scenario must set TimeStep).
+func settle() {
+	if zzmc.Active() {
+		time.Sleep(time.Millisecond)
+
+		return
+	}
+	synctest.Wait()
+}
+
 type world struct {
 	mu        sync.Mutex
 	socks     map[string]*vsock // by name
@@ -253,7 +266,7 @@ func (w *world) deliver(seq int, remove, drop bool) bool {
 		}
 		dst.in <- rxPacket{d.src, d.data}
 	}
-	synctest.Wait()
+	settle()
 
 	return true
 }
@@ -264,7 +277,7 @@ func (w *world) inject(to *vsock, src string, data []byte) {
 		w.onDeliver(to, src, data)
 	}
 	to.in <- rxPacket{src, append([]byte{}, data...)}
-	synctest.Wait()
+	settle()
 }
 
 type vNet struct{ transport.Net } // any other use by the agent panics: these worlds never gather
@@ -499,7 +512,7 @@ func (pw *pairWorld) signalAll(from, to *sideState) {
 			panic(err)
 		}
 		_ = to.agent.AddRemoteCandidate(c)
-		synctest.Wait()
+		settle()
 	}
 }
 
@@ -532,10 +545,10 @@ func newPairWorld(raw json.RawMessage) *pairWorld {
 		pw.signalAll(pw.side[1], pw.side[0])
 		pw.signalAll(pw.side[0], pw.side[1])
 	}
-	synctest.Wait()
+	settle()
 	pw.start(pw.side[0], pw.side[1], cfg.RoleA != "controlled", cfg.TieA)
 	pw.start(pw.side[1], pw.side[0], cfg.RoleB == "controlling", cfg.TieB)
-	synctest.Wait()
+	settle()
 
 	return pw
 }
@@ -553,7 +566,7 @@ func (pw *pairWorld) start(s, peer *sideState, controlling bool, tie uint64) {
 	if err != nil {
 		panic(err)
 	}
-	synctest.Wait()
+	settle()
 	pw.cmu.Lock()
 	s.contact = pw.contacts[s.agent]
 	pw.cmu.Unlock()
@@ -565,7 +578,7 @@ func (pw *pairWorld) start(s, peer *sideState, controlling bool, tie uint64) {
 func (pw *pairWorld) tick(i int) {
 	pw.side[i].ticks++
 	pw.side[i].contact()
-	synctest.Wait()
+	settle()
 }
 
 func (pw *pairWorld) Close() {
@@ -574,7 +587,7 @@ func (pw *pairWorld) Close() {
 			pw.problem("", "Close returned %v", err)
 		}
 	}
-	synctest.Wait()
+	settle()
 }
 
 // ---------------------------------------------------------------- canonical key
